@@ -78,8 +78,28 @@ theorem WInv.init (P : Params) : WInv P (Win.init listBuf P) [] := by
     multiple of `MOVE_BLOCK_ALIGN` (so of 16), keeps `keep_size_before` bytes before the next position, its
     copy range `off .. off + size` lies inside the written part of the buffer, and absolute positions do not
     change. -/
+theorem moveOffset_le {β : Type} (P : Params) (w : Win β) :
+    moveOffset P w ≤ (w.readPos + 1 - (P.keepBefore : Int)).toNat := by
+  unfold moveOffset
+  split
+  · exact alignDown_le _
+  · have := alignDown_le (moveOffsetRaw P w).toNat
+    unfold moveOffsetRaw at *
+    omega
+
+/-- without pending bytes the repaired statement computes what the statement before the repair computed -/
+theorem moveOffset_eq_pinned {β : Type} (P : Params) (w : Win β) (hp : w.pendingSize = 0) :
+    moveOffset P w = moveOffsetPinned P w := by
+  unfold moveOffset
+  split
+  · rfl
+  · unfold moveOffsetRaw moveOffsetPinned
+    rw [hp]
+    congr 2
+    omega
+
 theorem moveWindow_spec (P : Params) (w : Win (List Nat)) (fed : List Nat) (h : WPos P w fed)
-    (hc : (P.bufSize : Int) - (P.keepAfter : Int) ≤ w.readPos) :
+    (hc : (P.bufSize : Int) - (P.keepAfter : Int) ≤ w.readPos) (hpend : w.pendingSize = 0) :
     let off := moveOffset P w
     let w' := moveWindow listBuf P w
     WPos P w' fed ∧
@@ -92,11 +112,13 @@ theorem moveWindow_spec (P : Params) (w : Win (List Nat)) (fed : List Nat) (h : 
   intro off w'
   have hres : 262144 ≤ P.reserve := by unfold Params.reserve; omega
   have hbs : P.bufSize = P.keepBefore + P.keepAfter + P.reserve := rfl
-  have hx : off ≤ (w.readPos + 1 - (P.keepBefore : Int)).toNat := alignDown_le _
-  have h16 : off % 16 = 0 := alignDown_mod16 _
+  have hx : off ≤ (w.readPos + 1 - (P.keepBefore : Int)).toNat := moveOffset_le P w
+  have hoffeq : off = alignDown (w.readPos + 1 - (P.keepBefore : Int)).toNat := moveOffset_eq_pinned P w hpend
+  have h16 : off % 16 = 0 := by rw [hoffeq]; exact alignDown_mod16 _
   have hA : Consts.MOVE_BLOCK_ALIGN ≤ 262144 := by decide
-  have hge : Consts.MOVE_BLOCK_ALIGN ≤ off := alignDown_ge _ (by
-    have := h.rp_lt; have := h.wp_le; omega)
+  have hge : Consts.MOVE_BLOCK_ALIGN ≤ off := by
+    rw [hoffeq]
+    exact alignDown_ge _ (by have := h.rp_lt; have := h.wp_le; omega)
   have h1 := h.rp_lt; have h2 := h.wp_le; have h3 := h.buf_len; have h4 := h.fed_len
   have hoff : off ≤ w.writePos := by omega
   refine ⟨?_, h16, hge, by omega, by omega, hoff, ?_, rfl, rfl, rfl, rfl, rfl, rfl⟩
@@ -149,7 +171,11 @@ theorem fillCore_spec (P : Params) (w : Win (List Nat)) (fed input : List Nat) (
     refine ⟨_, rfl, ?_⟩
     by_cases hc : w.readPos ≥ (P.bufSize : Int) - (P.keepAfter : Int)
     · rw [if_pos hc]
-      obtain ⟨hp, _, hge, _, _, hoff, _, e1, e2, e3, e4, e5, e6⟩ := moveWindow_spec P w fed h.toWPos hc
+      have hpend0 : w.pendingSize = 0 := by
+        rcases h.pend with hz | hz
+        · exact hz
+        · exact absurd hz (by simp [hf])
+      obtain ⟨hp, _, hge, _, _, hoff, _, e1, e2, e3, e4, e5, e6⟩ := moveWindow_spec P w fed h.toWPos hc hpend0
       have := h.wp_le
       refine ⟨hp, ?_, ?_, ?_, ?_, ?_, ?_, ?_, ?_⟩
       · rw [e1, e4]; push_cast; omega
